@@ -57,6 +57,16 @@ pub fn guarded<T>(f: impl FnOnce() -> T) -> Result<T, String> {
     }
 }
 
+/// panics raised since the process started, on any thread: a panic inside `spawn_blocking` is caught by the
+/// runtime and surfaces as an error, this counter still sees it
+pub static PANICS: std::sync::atomic::AtomicUsize = std::sync::atomic::AtomicUsize::new(0);
+pub static LAST_PANIC: std::sync::Mutex<String> = std::sync::Mutex::new(String::new());
+
 pub fn quiet_panics() {
-    std::panic::set_hook(Box::new(|_| {}));
+    std::panic::set_hook(Box::new(|info| {
+        PANICS.fetch_add(1, std::sync::atomic::Ordering::SeqCst);
+        if let Ok(mut g) = LAST_PANIC.lock() {
+            *g = info.location().map(|l| format!("{}:{}", l.file().rsplit("crates/").next().unwrap_or(l.file()), l.line())).unwrap_or_default();
+        }
+    }));
 }
